@@ -88,13 +88,28 @@ def _dicts(ms):
     return [S([[int(k), int(v)] for k, v in m.items()]) for m in ms]
 
 
+def _ctor_args(case):
+    """Constructor arguments.  With case["implicit"] every argument whose value is the DOCUMENTED default (node attrs ["element"],
+    defaults ["*"] per attribute, edge attribute "order") is left out (None), so the defaulting paths of __init__ are exercised;
+    the case still records the effective configuration, which is what model and oracle use."""
+    na, nd, ea = list(case["node_attrs"]), list(case["node_defaults"]), list(case["edge_attrs"])
+    if case.get("implicit"):
+        if nd == ["*"] * len(na):
+            nd = None
+        if na == ["element"] and nd is None:
+            na = None
+        if ea == ["order"]:
+            ea = None
+    return na, nd, ea
+
+
 def _run(case):
     g1, g2 = G.to_nx(case["g1"]), G.to_nx(case["g2"])
     _Count.n = 0
     if case["variant"] == "matcher":
         mod = _patched("synkit.Graph.Matcher.mcs_matcher")
-        M = mod.MCSMatcher(node_attrs=list(case["node_attrs"]), node_defaults=list(case["node_defaults"]),
-                           edge_attrs=list(case["edge_attrs"]), prune_wc=case.get("prune_wc", False),
+        na, nd, ea = _ctor_args(case)
+        M = mod.MCSMatcher(node_attrs=na, node_defaults=nd, edge_attrs=ea, prune_wc=case.get("prune_wc", False),
                            prune_automorphisms=case.get("prune_auto", False))
         mode = case.get("mode")
         if mode == "mcs_mol":
@@ -107,7 +122,8 @@ def _run(case):
         return M, _Count.n
     mod = _patched("synkit.Graph.MTG.mcs_matcher")
     assert len(case["edge_attrs"]) == 1
-    M = mod.MCSMatcher(list(case["node_attrs"]), list(case["node_defaults"]), case["edge_attrs"][0])
+    na, nd, ea = _ctor_args(case)
+    M = mod.MCSMatcher(na, nd, case["edge_attrs"][0]) if ea is not None else mod.MCSMatcher(na, nd)
     M.find_common_subgraph(g1, g2, mcs=case["mcs"])
     return M, _Count.n
 
@@ -419,11 +435,16 @@ def _random_cases(rng, n, heavy):
                             nd_[1]["element"] = "*"
                 kw["prune_wc"] = rng.random() < 0.7
                 kind += "+wc"
-            elif r < 0.3:           # missing attributes: node defaults and the both-missing edge rule
-                for g in (g1, g2):
+            elif r < 0.3:           # missing attributes: node defaults (a missing label equals the default written out on the
+                for g in (g1, g2):  # other side: "*", charge 0) and the both-missing edge rule
                     for nd_ in g["nodes"]:
-                        if rng.random() < 0.3:
+                        z2 = rng.random()
+                        if z2 < 0.3:
                             nd_[1].pop("element", None)
+                        elif z2 < 0.4:
+                            nd_[1]["element"] = "*"
+                        if rng.random() < 0.3:
+                            nd_[1].pop("charge", None)
                     for e in g["edges"]:
                         if rng.random() < 0.3:
                             e[2].pop("order", None)
@@ -435,9 +456,90 @@ def _random_cases(rng, n, heavy):
                         if rng.random() < 0.7:
                             e[2]["standard_order"] = rng.choice([0, 1, -1])
                 kind += "+2edgeattrs"
+        elif rng.random() < 0.35:
+            # MTG copy: missing node labels on both sides; missing bond order on ONE side only (its _edge_match rejects a
+            # missing order even against a missing order -- see ASSUMPTIONS -- so two-sided gaps are left out)
+            gap = rng.choice([g1, g2])
+            for g in (g1, g2):
+                for nd_ in g["nodes"]:
+                    z2 = rng.random()
+                    if z2 < 0.25:
+                        nd_[1].pop("element", None)
+                    elif z2 < 0.35:
+                        nd_[1]["element"] = "*"
+                    if rng.random() < 0.25:
+                        nd_[1].pop("charge", None)
+            for e in gap["edges"]:
+                if rng.random() < 0.4:
+                    e[2].pop("order", None)
+            kind += "+missing1"
+        if rng.random() < 0.3:
+            kw["implicit"] = True       # constructor arguments that equal the documented defaults are omitted
         big = len(g1["nodes"]) * len(g2["nodes"])
         mcs = True if big > (30 if heavy else 20) else rng.random() < 0.6
         out.append(_mk(kind, g1, g2, mcs, variant, na, nd, ea, **kw))
+    return out
+
+
+def _low_overlap(rng, n):
+    """Pairs on >= 4 nodes each whose largest common part has only 1-2 atoms: the size-descending search has to pass
+    several empty levels before it finds anything (both argument orders, both copies)."""
+    out = []
+    for t in range(n):
+        n1, n2 = rng.randint(4, 6), rng.randint(4, 6)
+        g1 = _rand(rng, n1, rng.choice([0.3, 0.5]), elements=("N", "S", "P"))
+        g2 = _rand(rng, n2, rng.choice([0.3, 0.5]), elements=("C", "O"))
+        s_ = 1 if min(n1, n2) == 4 or rng.random() < 0.5 else 2
+        for nd_ in rng.sample(g1["nodes"], s_):
+            nd_[1]["element"] = "C"
+        if s_ == 2 and rng.random() < 0.5:
+            for e in g1["edges"]:
+                e[2]["order"] = 3       # no bond order in common: the two shared atoms match only if non-adjacent on both sides
+        g1, g2 = G.random_relabel(g1, rng, 1, 15), G.random_relabel(g2, rng, 1, 15)
+        if rng.random() < 0.5:
+            g1, g2 = g2, g1
+        kw = {"implicit": True} if rng.random() < 0.3 else {}
+        out.append(_mk("low-overlap", g1, g2, rng.random() < 0.8, "mtg" if rng.random() < 0.35 else "matcher", **kw))
+    return out
+
+
+def _respelled(rng, n):
+    """A graph and a relabelled copy in which labels that equal the default are spelled differently on the two sides (attribute
+    absent on one side, default value written out on the other), constructor defaults mostly taken by omission.  The full-size
+    mapping exists exactly when missing labels are read as the configured defaults; a bond whose order is dropped on one side
+    only must not be mapped onto its copy."""
+    out = []
+    for t in range(n):
+        variant = "mtg" if rng.random() < 0.5 else "matcher"
+        cfg = rng.random()
+        if cfg < 0.5:
+            na, nd, charges = ("element",), ("*",), (0, 0, 1)
+        elif cfg < 0.8:
+            na, nd, charges = ("element", "charge"), ("*", 0), (0, 0, 1)
+        else:
+            na, nd, charges = ("element", "charge"), ("*", "*"), (0, "*", "*")
+        g1 = _strip(G.random_graph(rng, rng.randint(2, 5), p_edge=rng.choice([0.4, 0.7]), elements=("C", "O", "*", "*"),
+                                   charges=charges, orders=(1, 2, 1.5)))
+        ids = [x for x, _ in g1["nodes"]]
+        g2 = G.shuffle_insertion(G.relabel(g1, dict(zip(ids, rng.sample(range(1, 12), len(ids))))), rng)
+        g2 = {"nodes": [[x, dict(a)] for x, a in g2["nodes"]], "edges": [[u, v, dict(a)] for u, v, a in g2["edges"]]}
+        for g in (g1, g2):
+            for _, a in g["nodes"]:
+                if a.get("element") == "*" and rng.random() < 0.5:
+                    del a["element"]
+                if len(na) == 2 and a.get("charge") == nd[1] and rng.random() < 0.5:
+                    del a["charge"]
+        kind = "respelled-copy"
+        z = rng.random()
+        gap = [rng.choice([g1, g2])] if variant == "mtg" or z < 0.5 else [g1, g2]
+        if z < 0.6:
+            for g in gap:
+                for e in g["edges"]:
+                    if rng.random() < 0.35:
+                        e[2].pop("order", None)
+            kind += "+missing-order"
+        kw = {"implicit": True} if rng.random() < 0.8 else {}
+        out.append(_mk(kind, g1, g2, rng.random() < 0.7, variant, na, nd, **kw))
     return out
 
 
@@ -487,5 +589,7 @@ def gen_cases(tier, rng):
             b2 = G.relabel(b, dict(zip(ids, rng.sample(range(1, 9), len(ids)))))
             cases.append(_mk("sample<=4", a, b2, rng.random() < 0.7, rng.choice(["matcher", "matcher", "mtg"])))
     cases += _random_cases(rng, 900 if tier == "quick" else 9000, tier != "quick")
+    cases += _low_overlap(rng, 150 if tier == "quick" else 1500)
+    cases += _respelled(rng, 250 if tier == "quick" else 2500)
     cases += _oracle_only(rng, 150 if tier == "quick" else 1500)
     return cases
